@@ -23,7 +23,7 @@ PROPS = {
         "assumptions": ["atoms written as a pool or classically negated are outside the theorems' pool_free premise "
                         "(known finding C18-pool)"],
     },
-    "C01": {"families": ["api_optimize", "norm_none", "cleanup_execute", "unused_execute", "projection_execute"], "oracle": "sem"},
+    "C01": {"families": ["api_optimize", "norm_none", "norm_preprocess", "cleanup_execute", "unused_execute", "projection_execute", "symmetry_execute", "minmax_execute", "sumchains_execute", "inline_execute", "inline_is_single", "dep_rule_dependency", "unused_rule_dependency", "math_sympy2ast", "math_ast2sympy_accepts"], "oracle": "sem"},
     "C02": {"families": ["unify_pairs", "unify_sequences", "sumchains_get_var", "sumchains_replace_optimize", "sumchains_execute", "minmax_replace_minimize", "minmax_replace_sum", "minmax_execute", "inline_minimize", "inline_execute"], "oracle": "sem"},
     "C03": {"families": ["binding_body", "binding_head", "norm_inline", "norm_preprocess", "norm_expand_comparisons", "norm_replace_old_aggregates", "cleanup_mappings", "dep_create_domain", "api_optimize"], "oracle": "struct"},
     "C04": {"families": ["safe_stmt", "unique_variables", "unique_names", "binding_body", "binding_head", "duplication_occurrences", "duplication_collect", "duplication_execute", "projection_good_split", "projection_rule", "api_optimize"], "oracle": "struct"},
